@@ -704,10 +704,7 @@ func (d *structDecoder) DecodeStream(s *Stream, depth int64, p unsafe.Pointer) e
 		s.cursor++
 		return nil
 	}
-	var (
-		seenFields   map[int]struct{}
-		seenFieldNum int
-	)
+	var seenFields map[int]struct{}
 	firstWin := (s.Option.Flags & FirstWinOption) != 0
 	if firstWin {
 		seenFields = make(map[int]struct{}, d.fieldUniqueNameNum)
@@ -734,10 +731,6 @@ func (d *structDecoder) DecodeStream(s *Stream, depth int64, p unsafe.Pointer) e
 				} else {
 					if err := field.dec.DecodeStream(s, depth, unsafe.Pointer(uintptr(p)+field.offset)); err != nil {
 						return err
-					}
-					seenFieldNum++
-					if d.fieldUniqueNameNum <= seenFieldNum {
-						return s.skipObject(depth)
 					}
 					seenFields[field.fieldIdx] = struct{}{}
 				}
@@ -791,10 +784,7 @@ func (d *structDecoder) Decode(ctx *RuntimeContext, cursor, depth int64, p unsaf
 		cursor++
 		return cursor, nil
 	}
-	var (
-		seenFields   map[int]struct{}
-		seenFieldNum int
-	)
+	var seenFields map[int]struct{}
 	firstWin := (ctx.Option.Flags & FirstWinOption) != 0
 	if firstWin {
 		seenFields = make(map[int]struct{}, d.fieldUniqueNameNum)
@@ -829,10 +819,6 @@ func (d *structDecoder) Decode(ctx *RuntimeContext, cursor, depth int64, p unsaf
 						return 0, err
 					}
 					cursor = c
-					seenFieldNum++
-					if d.fieldUniqueNameNum <= seenFieldNum {
-						return skipObject(buf, cursor, depth)
-					}
 					seenFields[field.fieldIdx] = struct{}{}
 				}
 			} else {
